@@ -10,6 +10,7 @@ import (
 	"errors"
 	"fmt"
 	"io"
+	"log"
 	"net"
 	"os"
 	"sync"
@@ -696,20 +697,82 @@ func (c *srvScript) SetWriteDeadline(t time.Time) error {
 // ---------- a running real server ----------
 
 type srvRig struct {
-	srv    *server.Server
-	lis    *srvListener
-	nerr   atomic.Int64
-	served chan error
+	srv      *server.Server
+	lis      *srvListener
+	nerr     atomic.Int64 // errors reported through OnErrorFunc, or lines of the default logger when it is unset
+	served   chan error
+	cfg      int  // which callbacks are set: 1 OnErrorFunc, 2 OnCloseConnFunc, 4 OnAcceptConnFunc, 8 OnServeFunc
+	tagCfg   bool // cases carry cfg as an additional argument
+	announce bool // child process: name the case on stderr before it runs, flush after it
+	caseNo   int
+	skip     int // child process: cases below this index are generated but not run
 }
 
-func newSrvRig(mode int) *srvRig {
-	g := &srvRig{lis: newSrvListener(), served: make(chan error, 1)}
-	g.srv = &server.Server{OnErrorFunc: func(err error) { g.nerr.Add(1) }}
+// the default-configured server reports connection errors through the standard logger; its output
+// is redirected to a counter (one Write per log line) credited to the rig that is running
+var srvLogTarget atomic.Pointer[atomic.Int64]
+
+type srvLogWriter struct{}
+
+func (srvLogWriter) Write(p []byte) (int, error) {
+	if t := srvLogTarget.Load(); t != nil {
+		t.Add(1)
+	}
+	return len(p), nil
+}
+
+func newSrvRig(mode int) *srvRig { return newSrvRigCfg(mode, 1) }
+
+func newSrvRigCfg(mode, cfg int) *srvRig {
+	g := &srvRig{lis: newSrvListener(), served: make(chan error, 1), cfg: cfg}
+	log.SetOutput(srvLogWriter{})
+	log.SetFlags(0)
+	srvLogTarget.Store(&g.nerr)
+	g.srv = &server.Server{}
+	if cfg&1 != 0 {
+		g.srv.OnErrorFunc = func(err error) { g.nerr.Add(1) }
+	}
+	if cfg&2 != 0 {
+		g.srv.OnCloseConnFunc = func(ctx context.Context, remoteAddr net.Addr, isServerShutdown bool) {}
+	}
+	if cfg&4 != 0 {
+		g.srv.OnAcceptConnFunc = func(ctx context.Context, remoteAddr net.Addr, connectionCount uint64) error { return nil }
+	}
+	if cfg&8 != 0 {
+		g.srv.OnServeFunc = func(addr net.Addr) {}
+	}
 	if mode == 2 {
 		g.srv.WriteTimeout = srvShortTimeout
 	}
 	go func() { g.served <- g.srv.Serve(context.Background(), g.lis, srvHandler{mode}) }()
 	return g
+}
+
+// caseArgs appends the configuration when the rig's cases carry it
+func (g *srvRig) caseArgs(args ...V) V {
+	if g.tagCfg {
+		args = append(args, I(g.cfg))
+	}
+	return L(args...)
+}
+
+// begin is called with the case as it is intended, before it runs: false = skip it.  In a child
+// process the case is named on stderr first, so that the parent can attribute a crash.
+func (g *srvRig) begin(entry string, intended V) bool {
+	no := g.caseNo
+	g.caseNo++
+	if no < g.skip {
+		return false
+	}
+	if g.announce {
+		fmt.Fprintf(os.Stderr, "SRVCASE\t%d\t%s\t%s\n", no, entry, srvRender(intended))
+	}
+	return true
+}
+func (g *srvRig) end() {
+	if g.announce {
+		out.Flush()
+	}
 }
 
 func (g *srvRig) stop() bool {
